@@ -234,18 +234,27 @@ def plan_c06(ck, prop, tier, seed, replay, t0):
 # contains the current tree of /repo/lightmotif-py plus the monitor helpers (pyharness/)
 
 
-def build_pyharness(ck):
+def build_pyharness(ck, overflow_checks=False):
+    """overflow_checks: the binding crate (and the generic code instantiated in it) is compiled with
+    arithmetic-overflow checks, as the dev profile of `maturin develop` / `cargo test` does; used
+    for a second pass of C18 only (index arithmetic at the Py_ssize_t extremes). Under these checks
+    the generic 8-bit kernel panics instead of wrapping (open finding of C08), so C17, which scans
+    on the generic arm, is judged on the plain release build only."""
     crate = os.path.join(ck.VERIF, "pyharness")
     env = dict(ck.ENV)
-    env["CARGO_TARGET_DIR"] = os.path.join(ck.BUILD, "py")
+    tdir = os.path.join(ck.BUILD, "py-ovf" if overflow_checks else "py")
+    env["CARGO_TARGET_DIR"] = tdir
     env["PYO3_PYTHON"] = "/usr/bin/python3"
-    rc, out, dt = ck.run(["cargo", "build", "--release", "--offline"], cwd=crate, env=env, timeout=3600)
+    cmd = ["cargo", "build", "--release", "--offline"]
+    if overflow_checks:
+        cmd += ["--config", "profile.release.package.lightmotif-py.overflow-checks=true"]
+    rc, out, dt = ck.run(cmd, cwd=crate, env=env, timeout=3600)
     if rc != 0:
         raise ck.Inconclusive("build of pyharness failed: %s" % out[-1500:].replace("\n", " | "))
-    pkg = os.path.join(ck.BUILD, "py", "pkg")
+    pkg = os.path.join(tdir, "pkg")
     os.makedirs(pkg, exist_ok=True)
-    shutil.copyfile(os.path.join(ck.BUILD, "py", "release", "liblmverif_py.so"), os.path.join(pkg, "lmverif_py.so"))
-    ck.log("[build pyharness: %.1fs]" % dt)
+    shutil.copyfile(os.path.join(tdir, "release", "liblmverif_py.so"), os.path.join(pkg, "lmverif_py.so"))
+    ck.log("[build pyharness%s: %.1fs]" % (" (overflow checks)" if overflow_checks else "", dt))
     return pkg
 
 
@@ -280,6 +289,11 @@ def plan_python(ck, prop, tier, seed, replay, t0):
 
     records.append(one("python", [], {}, tier, 3600))
     extra = {}
+    if prop == "C18":
+        # second pass on a build whose binding crate has arithmetic-overflow checks (dev-profile
+        # semantics of the index arithmetic); quick-sized in both tiers
+        pkg2 = build_pyharness(ck, overflow_checks=True)
+        records.append(one("python_overflow_checks", [], {"PYTHONPATH": "%s:%s" % (pkg2, "/repo/lightmotif-py")}, "quick", 3600))
     if prop == "C18" and tier == "thorough" and only is None:
         # the same script under valgrind memcheck (CPython on the system allocator): any invalid read
         # attributed to a buffer access is a view left dangling / pointing outside the object's storage
